@@ -42,7 +42,9 @@ type caseDesc struct {
 }
 
 func pickWidth(r *rand.Rand, prev []int) int {
-	switch x := r.Intn(12); {
+	switch x := r.Intn(13); {
+	case x == 12:
+		return 250 + r.Intn(400) // wider than any fixed-size helper buffer (256 blanks, ...)
 	case x == 0:
 		return 80 // the width the constructor pre-renders and caches
 	case x == 1 && len(prev) > 0:
